@@ -17,6 +17,7 @@ Open Scope Z_scope.
 Theorem C12_constants_match_source :
   gen_c12_strict_cap_ns = seven_days_ns /\
   gen_c12_strict_cap_ns = seven_days_ms * 1000000 /\
+  gen_c12_strict_unsigned = strict_unsigned /\
   gen_c12_publickeynotexpired = public_key_not_expired /\
   gen_c12_publickeynotvalid = public_key_not_valid /\
   gen_c12_supported_prefix = supported_prefix /\
@@ -34,18 +35,23 @@ Proof. repeat split; reflexivity. Qed.
 
 (* ---------- the validity rule ---------- *)
 
-(* WasValidAt with either rule, for all uint64 values, in millisecond arithmetic on the int64
-   reading Timestamp.Time makes of them *)
-Theorem was_valid_at_spec_all : forall now r atts rl,
+(* WasValidAt with either rule, for all uint64 values.  The source computes the strict rule either
+   through Timestamp.Time(), i.e. on the int64 reading of the values (strict_unsigned = false,
+   valid_at_spec), or - once finding F62 is repaired - on the unsigned millisecond values
+   (strict_unsigned = true, valid_at_unsigned); C12_constants_match_source says which.  now is the
+   clock in nanoseconds since the epoch, within int64. *)
+Theorem was_valid_at_spec_all : forall now r atts rl, 0 <= now < 2 ^ 63 ->
   was_valid_at now r atts rl =
-  valid_at_spec (rule_strict rl) now (pk_expired r) (pk_valid_until r) atts.
-Proof. exact was_valid_at_eq_spec. Qed.
+  (if strict_unsigned then valid_at_unsigned else valid_at_spec)
+    (rule_strict rl) now (pk_expired r) (pk_valid_until r) atts.
+Proof. intros now r atts rl H. rewrite (was_valid_at_eq_lib now r atts rl H). unfold lib_rule. destruct strict_unsigned; reflexivity. Qed.
 
-(* the property text, for timestamps below 2^63: an expired key is valid strictly before
-   expired_ts; otherwise always under the lenient rule, and under the strict rule iff a validity
-   period is known and the timestamp is at or before min(valid_until_ts, now + 7 days) *)
+(* the property text, for timestamps below 2^63 (either computation): an expired key is valid
+   strictly before expired_ts; otherwise always under the lenient rule, and under the strict rule
+   iff a validity period is known and the timestamp is at or before
+   min(valid_until_ts, now + 7 days) *)
 Theorem was_valid_at_spec : forall now r atts rl,
-  0 <= atts < 2 ^ 63 -> 0 <= pk_valid_until r < 2 ^ 63 ->
+  0 <= now < 2 ^ 63 -> 0 <= atts < 2 ^ 63 -> 0 <= pk_valid_until r < 2 ^ 63 ->
   (was_valid_at now r atts rl = true <->
    (pk_expired r <> 0 /\ atts < pk_expired r) \/
    (pk_expired r = 0 /\
@@ -53,11 +59,24 @@ Theorem was_valid_at_spec : forall now r atts rl,
      (pk_valid_until r <> 0 /\ atts <= Z.min (pk_valid_until r) (now / 1000000 + seven_days_ms))))).
 Proof. exact was_valid_at_text. Qed.
 
-(* the wrap: a timestamp of 2^63 or more is read as an instant before the epoch and passes the
-   strict rule against any known validity period *)
+(* with the unsigned computation the text holds for every uint64 value *)
+Theorem was_valid_at_follows_the_text_when_unsigned : forall now r atts rl,
+  strict_unsigned = true -> 0 <= now < 2 ^ 63 ->
+  was_valid_at now r atts rl = valid_at_unsigned (rule_strict rl) now (pk_expired r) (pk_valid_until r) atts.
+Proof. exact was_valid_at_eq_unsigned. Qed.
+
+(* F62: through int64 a timestamp of 2^63 or more is read as an instant before the epoch and passes
+   the strict rule against any known validity period ... *)
 Theorem strict_check_wraps_above_int64 : forall now atts vu,
   2 ^ 63 <= atts < 2 ^ 64 -> 0 < vu < 2 ^ 63 -> 0 <= now -> strict_check now atts vu = true.
 Proof. exact strict_check_wraps. Qed.
+
+(* ... which the text forbids: the claim that the int64 computation follows the text for all
+   uint64 timestamps is refuted (292 million years after valid_until_ts, accepted) *)
+Theorem strict_rule_through_int64_refuted :
+  exists now atts vu, strict_check now atts vu = true /\ strict_check_unsigned now atts vu = false /\
+                      valid_at_unsigned true now 0 vu atts = false.
+Proof. exists (1700000000000 * 1000000), (2 ^ 63), 1700003600000. exact strict_rule_wrap_witness. Qed.
 
 Section C12.
   Context {M : Type} (kids_of : bytes -> M -> option (list bytes))
@@ -401,7 +420,9 @@ Proof. vm_compute. repeat split; reflexivity. Qed.
 Print Assumptions C12_constants_match_source.
 Print Assumptions was_valid_at_spec_all.
 Print Assumptions was_valid_at_spec.
+Print Assumptions was_valid_at_follows_the_text_when_unsigned.
 Print Assumptions strict_check_wraps_above_int64.
+Print Assumptions strict_rule_through_int64_refuted.
 Print Assumptions verify_jsons_shape.
 Print Assumptions verify_jsons_sound.
 Print Assumptions database_asked_only_for_needed_pairs.
